@@ -204,4 +204,304 @@ theorem autoreset_restores (env : Env K P O X R A) (L r : Nat) (k : K) (as : Lis
     rw [ps_eq, obs_eq, if_pos hd, if_pos hd]
     exact ⟨rfl, rfl⟩
 
+/-- for an inner environment that is a function of `(pipeline_state, obs, action)` (`Markov`):
+once a history ends in a done, everything the wrapped environment shows afterwards
+(`pipeline_state, obs, reward, done, metrics, steps, truncation`) is what a freshly reset
+environment shows for the same actions — the next episode replays a fresh one. -/
+theorem episode_replays_fresh (env : Env K P O X R A) (hM : Markov env) (L : Nat) {r : Nat}
+    (hr : 1 ≤ r) (k : K) (as : List A) (hd : (run env L r k as).done ≠ 0) (b : A) (bs : List A) :
+    (run env L r k (as ++ b :: bs)).out = (run env L r k (b :: bs)).out := by
+  have hsim : Sim (run env L r k as) (arReset env k) := by
+    rcases List.eq_nil_or_concat as with rfl | ⟨as', a, rfl⟩
+    · exact ⟨rfl, rfl, rfl, rfl, rfl⟩
+    · rw [List.concat_eq_append] at hd ⊢
+      have h := autoreset_restores env L r k as' a
+      have hf := foldl_first env L r (arReset env k) (as' ++ [a])
+      refine ⟨(h.2.2.1 hd).1, (h.2.2.1 hd).2, hf.1, hf.2, ?_⟩
+      have hd' : (run env L r k (as' ++ [a])).ep.st.done ≠ 0 := hd
+      simp only [arPre, whereNZ, hd', if_false, arReset, epReset]
+      exact (ite_self _).symm
+  have := sim_foldl env hM L hr _ _ hsim b bs
+  simpa only [run, List.foldl_append] using this
+
+/-! ## evaluation metrics -/
+
+/-- `EvalWrapper(wrap(env))` after any history, for an inner environment with 0/1 `done`
+flags: the accumulated reward is the sum of the wrapped rewards of the **first episode only**
+(wrapped steps up to and including the first done), `episode_steps` is `info['steps']` at that
+done (or of the last step so far), `active_episodes` is 1 until the first done and 0 for ever
+after; the other fields are those of `wrap(env)`. -/
+theorem eval_first_episode_only (env : Env K P O X R A)
+    (hb : ∀ s a, (env.step s a).done = 0 ∨ (env.step s a).done = 1) (L r : Nat) (k : K)
+    (as : List A) :
+    (evRun env L r k as).ar = run env L r k as ∧
+    (evRun env L r k as).emReward = ((firstEp (trace env L r k as)).map (·.reward)).sum ∧
+    (evRun env L r k as).active
+      = (if (trace env L r k as).any (fun t => decide (t.done ≠ 0)) then 0 else 1) ∧
+    (evRun env L r k as).episodeSteps
+      = (((firstEp (trace env L r k as)).getLast?).map (·.steps)).getD 0 := by
+  have h := evFold_active env hb L r (evReset env k) rfl as
+  refine ⟨(evFold_ar env L r (evReset env k) as).1, ?_, h.2.1, h.2.2⟩
+  have := h.1
+  simp only [evReset, zero_add] at this
+  exact this
+
+/-- the same for every entry of the environment's own `metrics` dict, when the environment
+keeps its set of metric keys (as `jax.tree.map` requires) -/
+theorem eval_metrics_first_episode_only (env : Env K P O X R A)
+    (hb : ∀ s a, (env.step s a).done = 0 ∨ (env.step s a).done = 1)
+    (hm : ∀ s a, (env.step s a).metrics.length = s.metrics.length) (L r : Nat) (k : K)
+    (as : List A) :
+    (evRun env L r k as).emMetrics
+      = (firstEp (trace env L r k as)).foldl (fun acc t => List.zipWith (· + ·) acc t.metrics)
+          (List.replicate (env.reset k).metrics.length 0) := by
+  have h := evFold_active_metrics env hb hm L r (evReset env k) rfl
+    (by simp [evReset, arReset, epReset, ArSt.metrics]) as
+  have he : (evReset env k).emMetrics = List.replicate (env.reset k).metrics.length (0 : R) := by
+    simp only [evReset, arReset, epReset, ArSt.metrics, List.map_const']
+  rw [← he]
+  exact h
+
+/-- `active_episodes` is 0 or 1, never comes back (monotone), and once it is 0 the accumulated
+reward and `episode_steps` are frozen whatever happens afterwards -/
+theorem eval_frozen_after_done (env : Env K P O X R A)
+    (hb : ∀ s a, (env.step s a).done = 0 ∨ (env.step s a).done = 1) (L r : Nat) (k : K)
+    (as bs : List A) :
+    ((evRun env L r k as).active = 0 ∨ (evRun env L r k as).active = 1) ∧
+    (evRun env L r k (as ++ bs)).active ≤ (evRun env L r k as).active ∧
+    ((evRun env L r k as).active = 0 →
+      (evRun env L r k (as ++ bs)).active = 0 ∧
+      (evRun env L r k (as ++ bs)).emReward = (evRun env L r k as).emReward ∧
+      (evRun env L r k (as ++ bs)).episodeSteps = (evRun env L r k as).episodeSteps) := by
+  have h01 : ∀ cs : List A,
+      (evRun env L r k cs).active = 0 ∨ (evRun env L r k cs).active = 1 := by
+    intro cs
+    rw [(eval_first_episode_only env hb L r k cs).2.2.1]
+    split
+    · exact Or.inl rfl
+    · exact Or.inr rfl
+  have hfr : (evRun env L r k as).active = 0 →
+      (evRun env L r k (as ++ bs)).active = 0 ∧
+      (evRun env L r k (as ++ bs)).emReward = (evRun env L r k as).emReward ∧
+      (evRun env L r k (as ++ bs)).episodeSteps = (evRun env L r k as).episodeSteps := by
+    intro h0
+    have := evFold_frozen env L r (evRun env L r k as) h0 bs
+    simpa only [evRun, List.foldl_append] using this
+  refine ⟨h01 as, ?_, hfr⟩
+  rcases h01 as with h0 | h1
+  · rw [(hfr h0).1, h0]
+  · rw [h1]
+    rcases h01 (as ++ bs) with h | h <;> rw [h]
+    exact zero_le_one
+
+/-! ## generate_unroll -/
+section unroll
+variable {S Ky : Type}
+
+/-- `generate_unroll` (any environment step function, policy and key splitting): it returns `n`
+transitions; transition `i` leads from the `i`-th to the `i+1`-st visited state by the policy's
+action, records the observation before, and reward, `discount = 1 - done`, next observation
+and truncation after the step; so consecutive transitions chain `next_observation` to
+`observation`; the returned state is the last visited one. -/
+theorem unroll_chains (v : View S O R) (step : S → A → S) (π : O → Ky → A)
+    (split : Ky → Ky × Ky) (n : Nat) (s : S) (key : Ky) :
+    let ts := (unroll v step π split n s key).2
+    let ss := unrollStates v step π split n s key
+    ts.length = n ∧ ss.length = n + 1 ∧ ss[0]? = some s ∧
+    ss[n]? = some (unroll v step π split n s key).1 ∧
+    (∀ i, i < n → ∃ t s₁ s₂, ts[i]? = some t ∧ ss[i]? = some s₁ ∧ ss[i + 1]? = some s₂ ∧
+      s₂ = step s₁ t.action ∧ t.observation = v.obs s₁ ∧ t.nextObservation = v.obs s₂ ∧
+      t.reward = v.reward s₂ ∧ t.discount = 1 - v.done s₂ ∧ t.truncation = v.truncation s₂) ∧
+    (∀ i, i + 1 < n → ∃ t t', ts[i]? = some t ∧ ts[i + 1]? = some t' ∧
+      t'.observation = t.nextObservation) ∧
+    Chained ts := by
+  intro ts ss
+  have hmain : ts.length = n ∧ ss.length = n + 1 ∧ ss[0]? = some s ∧
+      ss[n]? = some (unroll v step π split n s key).1 ∧
+      (∀ i, i < n → ∃ t s₁ s₂, ts[i]? = some t ∧ ss[i]? = some s₁ ∧ ss[i + 1]? = some s₂ ∧
+        s₂ = step s₁ t.action ∧ t.observation = v.obs s₁ ∧ t.nextObservation = v.obs s₂ ∧
+        t.reward = v.reward s₂ ∧ t.discount = 1 - v.done s₂ ∧ t.truncation = v.truncation s₂) := by
+    induction n generalizing s key with
+    | zero => exact ⟨rfl, rfl, rfl, rfl, fun i h => absurd h (Nat.not_lt_zero i)⟩
+    | succ n ih =>
+      obtain ⟨h1, h2, h3, h4, h5⟩ := ih (step s (π (v.obs s) (split key).1)) (split key).2
+      refine ⟨by simp only [ts, unroll, List.length_cons, actorStep, h1],
+        by simp only [ss, unrollStates, List.length_cons, h2], rfl, ?_, ?_⟩
+      · simpa only [ss, unrollStates, unroll, actorStep, List.getElem?_cons_succ] using h4
+      · intro i hi
+        cases i with
+        | zero =>
+          refine ⟨_, s, step s (π (v.obs s) (split key).1), rfl, rfl, ?_, rfl, rfl, rfl, rfl,
+            rfl, rfl⟩
+          simpa only [ss, unrollStates, List.getElem?_cons_succ] using h3
+        | succ j =>
+          obtain ⟨t, s₁, s₂, e1, e2, e3, rest⟩ := h5 j (by omega)
+          refine ⟨t, s₁, s₂, ?_, ?_, ?_, rest⟩
+          · simpa only [ts, unroll, actorStep, List.getElem?_cons_succ] using e1
+          · simpa only [ss, unrollStates, List.getElem?_cons_succ] using e2
+          · simpa only [ss, unrollStates, List.getElem?_cons_succ] using e3
+  obtain ⟨h1, h2, h3, h4, h5⟩ := hmain
+  have hchain : ∀ i, i + 1 < n → ∃ t t', ts[i]? = some t ∧ ts[i + 1]? = some t' ∧
+      t'.observation = t.nextObservation := by
+    intro i hi
+    obtain ⟨t, s₁, s₂, e1, _, e3, _, _, e6, _⟩ := h5 i (by omega)
+    obtain ⟨t', s₁', s₂', e1', e2', _, _, e5', _⟩ := h5 (i + 1) hi
+    refine ⟨t, t', e1, e1', ?_⟩
+    rw [e5', e6]
+    rw [e3] at e2'
+    exact congrArg v.obs (Option.some.inj e2').symm
+  refine ⟨h1, h2, h3, h4, h5, hchain, ?_⟩
+  -- `Chained` from the index form
+  have : ∀ (l : List (Transition O A R)),
+      (∀ i, i + 1 < l.length → ∃ t t', l[i]? = some t ∧ l[i + 1]? = some t' ∧
+        t'.observation = t.nextObservation) → Chained l := by
+    intro l
+    induction l with
+    | nil => intro _; trivial
+    | cons x xs ih =>
+      intro h
+      cases xs with
+      | nil => trivial
+      | cons y ys =>
+        refine ⟨?_, ih ?_⟩
+        · obtain ⟨t, t', e1, e2, e3⟩ := h 0 (by simp)
+          simp only [List.getElem?_cons_zero, Option.some.injEq, List.getElem?_cons_succ] at e1 e2
+          rw [← e1, ← e2] at e3; exact e3
+        · intro i hi
+          obtain ⟨t, t', e1, e2, e3⟩ := h (i + 1) (by simp only [List.length_cons] at hi ⊢; omega)
+          exact ⟨t, t', by simpa only [List.getElem?_cons_succ] using e1,
+            by simpa only [List.getElem?_cons_succ] using e2, e3⟩
+  exact this ts (by rw [h1]; exact hchain)
+
+end unroll
+
+/-! ## batches -/
+
+/-- The wrappers as written over arrays with a leading batch axis (`bRun`: `VmapWrapper` →
+`EpisodeWrapper` with `jp.sum(rewards, axis=0)` → `AutoResetWrapper` with the `done` mask
+broadcast over the observation axis; `bEvRun`: plus `EvalWrapper`) compute, for every key
+array and every history of action arrays of the batch's size, exactly the stacked results of
+the single-member model run member by member (`memberRuns` is a `List.zipWith`/`List.map` of
+the member functions).  Hypothesis: observations have the environment's `observation_size`. -/
+theorem batched_wrappers_eq_map (env : BEnv K P X R A) (n : Nat)
+    (hreset : ∀ k, (env.reset k).obs.length = n) (hstep : ∀ s a, (env.step s a).obs.length = n)
+    (L r : Nat) (ks : List K) (hist : List (List A)) (hshape : ∀ as ∈ hist, as.length = ks.length) :
+    bRun env L r ks hist = BArSt.stack (memberRuns env L r ks hist) ∧
+    bEvRun env L r ks hist = BEvSt.stack (memberEvRuns env L r ks hist) := by
+  constructor
+  · rw [bRun, bArReset_eq, memberRuns]
+    apply bRun_foldl env n hstep
+    · intro s hs
+      obtain ⟨k, _, rfl⟩ := List.mem_map.mp hs
+      exact ⟨hreset k, hreset k⟩
+    · simpa only [List.length_map] using hshape
+  · rw [bEvRun, bEvReset_eq, memberEvRuns]
+    apply bEvRun_foldl env n hstep
+    · intro s hs
+      obtain ⟨k, _, rfl⟩ := List.mem_map.mp hs
+      exact ⟨hreset k, hreset k⟩
+    · simpa only [List.length_map] using hshape
+
+/-- member `i` of the member-wise runs is the single-member run on member `i`'s key and on
+column `i` of the action history: nothing of any other member (state, action, done) enters. -/
+theorem batched_member_independent (env : BEnv K P X R A) (L r : Nat) (ks : List K)
+    (hist : List (List A)) (i : Nat) (k : K) (col : List A) (hk : ks[i]? = some k)
+    (hcol : hist.map (·[i]?) = col.map some) :
+    (memberRuns env L r ks hist)[i]? = some (run env L r k col) ∧
+    (memberEvRuns env L r ks hist)[i]? = some (evRun env L r k col) := by
+  constructor
+  · apply foldl_zipWith_getElem? _ _ _ _ _ _ _ hcol
+    rw [List.getElem?_map, hk]; rfl
+  · apply foldl_zipWith_getElem? _ _ _ _ _ _ _ hcol
+    rw [List.getElem?_map, hk]; rfl
+
+/-! ## the episode log -/
+
+/-- Refinement of the executable spec.  Take the bare stream of inner sub-steps the wrapped
+environment executed along a history, cut into chunks of `r` (`chunksFrom`).  From that stream
+alone `specSteps` computes what every wrapped step must report — reward (sum of the chunk),
+step counter, done (last sub-step terminated, or the episode reached `L` sub-steps) and
+truncation — and `episodeLog` the list of episodes with their sub-step rewards.  The model's
+reports after every step of every history are exactly `specSteps`, and the episodes delimited
+by the model's `done` flags are exactly the episodes of the log. -/
+theorem run_matches_log (env : Env K P O X R A) {L r : Nat} (hL : 1 ≤ L) (hr : 1 ≤ r) (k : K)
+    (as : List A) :
+    (trace env L r k as).map ArSt.report
+      = (specSteps L r 0 (chunksFrom env L r (arReset env k) as)).map StepOut.toR ∧
+    splitByDone [] ((trace env L r k as).map (·.done)) (chunksFrom env L r (arReset env k) as)
+      = episodeLog L r (chunksFrom env L r (arReset env k) as) := by
+  have h := trace_matches_spec env hL hr (arReset env k) 0 (inv_reset env r hL k) as
+  rw [ite_self] at h
+  refine ⟨h, ?_⟩
+  have hd : (trace env L r k as).map (·.done)
+      = (specSteps L r 0 (chunksFrom env L r (arReset env k) as)).map (·.done) := by
+    have := congrArg (List.map fun (t : R × R × R × R) => t.2.2.1) h
+    simpa only [List.map_map, Function.comp_def, ArSt.report, StepOut.toR, trace] using this
+  rw [hd, splitByDone_spec]; rfl
+
+/-! ## non-vacuity: concrete environments, concrete histories -/
+
+/-- scripted schedule: the inner environment terminates at sub-step index 2 only -/
+def exScript : Script Int :=
+  { localIdx := false, c := 7, acc0 := 1, b0 := 0, b1 := 0, firstN := 0, aw := 0, kill := 3,
+    dones := [0, 0, 1], rewards := [1, 2, 4, 8, 16, 32, 64] }
+
+/-- `L = 5, r = 2`: the termination in the *middle* of the second action repeat is not seen,
+the episode is cut by the time limit after `⌈5/2⌉·2 = 6` sub-steps with `truncation = 1`,
+rewards are sums of two sub-steps, the observation returned is the reset observation, and the
+counter restarts on the following step. -/
+example :
+    let s2 := run (R := Int) scripted 5 2 exScript [0, 0]
+    let s3 := run (R := Int) scripted 5 2 exScript [0, 0, 0]
+    let s4 := run (R := Int) scripted 5 2 exScript [0, 0, 0, 0]
+    (s2.reward, s2.done, s2.steps, s2.truncation, s2.obs) = (12, 0, 4, 0, [4, 1, 7]) ∧
+    (s3.reward, s3.done, s3.steps, s3.truncation, s3.obs) = (48, 1, 6, 1, [0, 1, 7]) ∧
+    (s4.reward, s4.done, s4.steps, s4.truncation, s4.obs) = (64, 0, 2, 0, [2, 1, 7]) ∧
+    count (R := Int) scripted 5 2 exScript [0, 0, 0] = 3 ∧
+    count (R := Int) scripted 5 2 exScript [0, 0, 0, 0] = 1 := by decide
+
+/-- a termination on the last sub-step of a repeat is seen: done without truncation; and
+termination and time limit at the same step (`L = 4, r = 2`, done at index 3): no truncation -/
+example :
+    let sc := { exScript with dones := [0, 0, 0, 1] }
+    let s := run (R := Int) scripted 6 2 sc [0, 0]
+    let t := run (R := Int) scripted 4 2 sc [0, 0]
+    (s.done, s.truncation, s.steps) = (1, 0, 4) ∧ (t.done, t.truncation, t.steps) = (1, 0, 4) := by
+  decide
+
+/-- the evaluation wrapper on the same script (two episodes long): only the first episode is
+accumulated -/
+example :
+    let e := evRun (R := Int) scripted 5 2 exScript [0, 0, 0, 0, 0]
+    (e.emReward, e.active, e.episodeSteps) = (63, 0, 6) := by decide
+
+/-- an environment that is a function of `(pipeline_state, obs, action)`: a counter that
+terminates at 3; the hypotheses of `episode_replays_fresh`, `eval_first_episode_only` and
+`batched_wrappers_eq_map` hold for it and a done does occur -/
+def counterEnv : BEnv Unit Nat Unit Int Int :=
+  ⟨fun _ => ⟨0, [0], 0, 0, [0], ()⟩,
+   fun s a => ⟨s.ps + 1, [(s.ps : Int) + 1], a, if 3 ≤ s.ps + 1 then 1 else 0, [a], ()⟩⟩
+
+example : Markov counterEnv ∧
+    (∀ s a, (counterEnv.step s a).done = 0 ∨ (counterEnv.step s a).done = 1) ∧
+    (∀ s a, (counterEnv.step s a).metrics.length = s.metrics.length → True) ∧
+    (∀ k, (counterEnv.reset k).obs.length = 1) ∧ (∀ s a, (counterEnv.step s a).obs.length = 1) ∧
+    (run (R := Int) counterEnv 10 1 () [5, 6, 7]).done ≠ 0 ∧
+    (run (R := Int) counterEnv 10 1 () [5, 6, 7, 8]).out = (run (R := Int) counterEnv 10 1 () [8]).out := by
+  refine ⟨?_, ?_, fun _ _ _ => trivial, fun _ => rfl, fun _ _ => rfl, by decide, rfl⟩
+  · intro s s' a h1 h2
+    simp only [counterEnv, h1, and_self]
+  · intro s a
+    simp only [counterEnv]
+    split
+    · exact Or.inr rfl
+    · exact Or.inl rfl
+
+/-- a batch of two members with different scripts and actions: the batched code equals the
+stacked member runs (both sides computed) -/
+example :
+    bRun (R := Int) scripted 5 2 [exScript, { exScript with dones := [1], c := 2 }] [[0, 1], [1, 0], [0, 0]]
+      = BArSt.stack (memberRuns (R := Int) scripted 5 2
+          [exScript, { exScript with dones := [1], c := 2 }] [[0, 1], [1, 0], [0, 0]]) := rfl
+
 end Brax.C15
